@@ -5,6 +5,7 @@ import (
 	"encoding/json"
 	"flag"
 	"fmt"
+	"math/rand"
 	"os"
 )
 
@@ -101,6 +102,56 @@ func main() {
 		defer done()
 		for i := 0; i < *n; i++ {
 			loadCase(i+1, *seed*1000003+int64(i), enc)
+		}
+	case "race":
+		enc, done := openOut(*out)
+		defer done()
+		senc, sdone := openOut(*out + ".steered")
+		defer sdone()
+		f, err := os.Open(*in)
+		if err != nil {
+			fmt.Fprintln(os.Stderr, err)
+			os.Exit(2)
+		}
+		sc := bufio.NewScanner(f)
+		sc.Buffer(make([]byte, 1<<20), 1<<26)
+		i := 0
+		for sc.Scan() && i < *n {
+			var b behT
+			if err := json.Unmarshal(sc.Bytes(), &b); err != nil {
+				fmt.Fprintln(os.Stderr, "bad behaviour:", err)
+				os.Exit(2)
+			}
+			i++
+			raceCase(i, *seed*1000003+int64(i), b, []string{"frozen", "live"}[i%2], enc)
+		}
+		hrng := rand.New(rand.NewSource(*seed))
+		for j := 0; j < *big; j++ {
+			i++
+			raceCase(i, *seed*1000003+int64(i), heavyBeh(hrng, 30+hrng.Intn(40), 240), []string{"frozen", "live"}[i%2], enc)
+		}
+		for j := 0; j < *n/4+1; j++ {
+			steeredCase(j+1, *seed*7+int64(j), senc)
+		}
+	case "replay-map":
+		enc, done := openOut(*out)
+		defer done()
+		f, err := os.Open(*in)
+		if err != nil {
+			fmt.Fprintln(os.Stderr, err)
+			os.Exit(2)
+		}
+		sc := bufio.NewScanner(f)
+		sc.Buffer(make([]byte, 1<<20), 1<<26)
+		i := 0
+		for sc.Scan() && i < *n {
+			var b behT
+			if err := json.Unmarshal(sc.Bytes(), &b); err != nil {
+				fmt.Fprintln(os.Stderr, "bad behaviour:", err)
+				os.Exit(2)
+			}
+			i++
+			replayMapTrace(i, *seed*1000003+int64(i), b, enc)
 		}
 	case "store":
 		enc, done := openOut(*out)
